@@ -35,8 +35,8 @@ MANIFEST = dict(
     text=("Lean 4 theorems (Props/C07.lean) about the real-number model of Coordinates.vsop_pos / geometric_vsop_pos / "
           "apparent_vsop_pos / orbital_elements and the per-planet wrappers, with the coefficient tables regenerated "
           "from the source on every run (tools/gen_tables.py): for EVERY table and every t the evaluator as coded "
-          "(Horner over series sums) equals the direct sum of t^i A cos(B + C t); longitude of vsop_pos in [0, 360), "
-          "latitude in (-360, 360); size of the FK5 correction and of the aberration term; per planet, from the "
+          "(Horner over series sums) equals the direct sum of t^i A cos(B + C t); longitude in [0, 360) and latitude in (-360, 360) for vsop_pos and after the "
+          "FK5 / aberration / nutation corrections; size of the FK5 correction and of the aberration term; per planet, from the "
           "generated tables: Kepler's third law (0.1 % / 1 %), the series' mean-longitude rate equals the "
           "orbital-element rate to 1e-6, and the un-reduced longitude series is strictly increasing on t in [-4, 2] "
           "millennia (triangle-inequality bound on the derivative, sums of |A| and |A C| re-computed by the kernel). "
@@ -460,6 +460,15 @@ def tie_nutation(ctx, jde):
     ctx.case('nutation_obliquity', [jde], run_impl(lambda: C.nutation_obliquity(e)()), q=None, klass='nutation')
 
 
+def size(ctx, quick, thorough, dense=None):
+    """sample count: when the source fingerprint of a modelled function changed (ctx.scale > 1) the quick tier
+    switches to the densest enumeration that still fits in 2-3 minutes (`dense`, default: the thorough count),
+    whatever the scale; otherwise the tier's own count"""
+    if ctx.tier == 'quick' and ctx.scale > 1:
+        return max(1, dense if dense is not None else thorough)
+    return ctx.n(quick, thorough)
+
+
 # ------------------------------------------------------------------ generators
 def wrap_epochs(planet, rng, count):
     """epochs at which the (uncorrected) longitude has just passed 0: the inputs on which the FK5 /
@@ -504,8 +513,8 @@ def generate(ctx, shard=0, nshards=1):
         for p in PLANETS:
             check(ctx, 'rate_matches_elements', [p])
             check(ctx, 'kepler3', [p])
-        tie_angles(ctx, rng, ctx.n(150, 1500))
-        tie_generic(ctx, rng, ctx.n(150, 1500))
+        tie_angles(ctx, rng, size(ctx, 150, 1500))
+        tie_generic(ctx, rng, size(ctx, 150, 1500))
         # anchors: J2000, the ends of the range
         for p in PLANETS:
             for j in (2451545.0, lo, hi, norm_jde(lo + 0.5), norm_jde(hi - 0.5)):
@@ -516,7 +525,7 @@ def generate(ctx, shard=0, nshards=1):
     hot = [norm_jde(v) for v in ctx.hot['floats'] if lo <= v <= hi]
     for pi, planet in enumerate(PLANETS):
         # --- dense random epochs over -2000..4000 (more weight at the ends, where t is large)
-        n = max(1, ctx.n(320, 4000) // nshards)
+        n = max(1, size(ctx, 320, 4000) // nshards)
         for k in range(n):
             u = rng.random()
             if u < 0.15:
@@ -550,8 +559,13 @@ def generate(ctx, shard=0, nshards=1):
         #     shards take interleaved days
         per = PERIOD_DAYS[planet]
         start = norm_jde(rng.uniform(lo, hi - per - 3.0)) if shard else norm_jde(lo + 10.0 * (pi + 1))
+        dense = ctx.tier == 'quick' and ctx.scale > 1
         if ctx.tier == 'thorough':
             days = range(shard, per + 1, nshards)
+        elif dense:
+            # every day of the orbit up to 16000 days per planet, a stride of days beyond (Uranus, Neptune)
+            stride = max(1, -(-per // 16000))
+            days = range(shard * stride, per + 1, stride * nshards)
         else:
             stride = max(1, per // 240)
             days = range(shard * stride, per + 1, stride * nshards)
@@ -562,9 +576,9 @@ def generate(ctx, shard=0, nshards=1):
             check(ctx, 'radius_window', [planet, j], 'radius_window/orbit')
         # --- 1-second steps: a run of consecutive seconds, and across the 360 -> 0 wrap
         j = norm_jde(rng.uniform(lo, hi - 1.0))
-        for s in range(ctx.n(12, 120) // (1 if nshards == 1 else 2)):
+        for s in range(size(ctx, 12, 120) // (1 if nshards == 1 else 2)):
             check(ctx, 'one_second_step', [planet, norm_jde(j + s / 86400.0)], 'one_second_step/run')
-        for w in wrap_epochs(planet, rng, 1 if ctx.tier == 'quick' else 3):
+        for w in wrap_epochs(planet, rng, 1 if (ctx.tier == 'quick' and not dense) else 3):
             l0 = pos(planet, w, 'vsop', True)[0]
             tie_epoch(ctx, planet, w, 'wrap', full=False)
             check(ctx, 'lon_range_vsop', [planet, w, 'vsop', True], 'lon_range_vsop/wrap')
